@@ -75,10 +75,12 @@ fn one_backend<P: Backend>(o: &mut Outcome, case: &Value, feats: &[String]) -> O
         let p = P::build(&pairs(&case["prior"]));
         let r = guarded("from_paragraph", || <Shapes as FromDeb822Paragraph<P>>::from_paragraph(&p));
         o.evals += 1;
-        let key = KEYS[case["err"][1].as_u64().unwrap() as usize - 1];
-        let want = if case["err"][0] == "missing" { format!("missing field: {}", key) } else { format!("parsing field {}", key) };
+        // the error must name ONE of the offending fields (the contract model names the first in declaration order)
+        let msg = |e: &Value| { let key = KEYS[e[1].as_u64().unwrap() as usize - 1]; if e[0] == "missing" { format!("missing field: {}", key) } else { format!("parsing field {}", key) } };
+        let want = msg(&case["err"]);
+        let any: Vec<String> = case["off"].as_array().map(|a| a.iter().map(|e| msg(e)).collect()).unwrap_or_default();
         match r {
-            Ok(Err(e)) => { if !e.contains(&want) { o.v("C16", "error_names_field", &format!("{} from_paragraph", be), "mismatch", feats, &p.text(), format!("error {:?} does not say {:?}", e, want)); } summary = e; }
+            Ok(Err(e)) => { if !e.contains(&want) && !any.iter().any(|w| e.contains(w)) { o.v("C16", "error_names_field", &format!("{} from_paragraph", be), "mismatch", feats, &p.text(), format!("error {:?} does not say {:?}", e, want)); } summary = e; }
             Ok(Ok(v)) => o.v("C16", "error_names_field", &format!("{} from_paragraph", be), "mismatch", feats, &p.text(), format!("accepted as {:?}, expected error {:?}", v, want)),
             Err(m) => o.v("C16", "error_names_field", &format!("{} from_paragraph", be), "panic", feats, &p.text(), m),
         }
